@@ -469,8 +469,8 @@ def shards(tier, seed):
     out = []
     for i in range(6 if q else 24):
         out.append(("systematic_%d" % i, dict(kind="systematic", scenarios=2 if q else 12, limit=100 if q else 1500, instr=not q)))
-    for i in range(4 if q else 12):
-        out.append(("systematic_keys_%d" % i, dict(kind="systematic_keys", scenarios=1 if q else 8, limit2=40 if q else 1500, instr=not q)))
+    for i in range(8 if q else 16):
+        out.append(("systematic_keys_%d" % i, dict(kind="systematic_keys", scenarios=4 if q else 8, limit2=16 if q else 1500, instr=not q, first=i * (4 if q else 8))))
     for i in range(4 if q else 16):
         out.append(("random_%d" % i, dict(kind="random", scenarios=10 if q else 60, per=12 if q else 60, instr=(i % 2 == 1))))
     for i in range(2 if q else 8):
@@ -585,17 +585,23 @@ def run(ctx, name, kind, **kw):
         elif kind == "systematic_keys":
             # shared verifying / signing key: (precompute | precompute_lazy) against each key operation.  EVERY single-delay
             # placement is run (the window inside precompute() is one or two yield points wide), then sampled pairs of delays.
-            for _ in range(kw["scenarios"]):
+            # The combinations (key operation x which side is suspended x key already precomputed or not) are walked in a fixed rotation
+            # across the shards - the quick tier covers all 32 of them in every run - instead of being drawn (a draw left some of them
+            # out of a whole run, and which ones depended on unrelated changes to the generators).
+            KEY_OPS = ("verify", "pickle_vk", "to_string", "copy_vk", "sign", "deepcopy_sk", "precompute_lazy", "verify_default_hash")
+            for j_ in range(kw["scenarios"]):
+                combo = kw.get("first", 0) + j_
                 curve, dom = toy_pick(rng)
                 sc = Scenario(rng, curve, dom, 2)
                 a0, a1 = sc.plans[0][0][1], sc.plans[1][0][1]
-                sc.pre_precomputed = rng.random() < 0.5
-                sc.plans[0] = [(rng.choice(("precompute", "precompute_lazy")), a0, 0)]
-                sc.plans[1] = [(rng.choice(("verify", "verify", "to_string", "sign", "precompute_lazy", "verify", "pickle_vk", "copy_vk", "deepcopy_sk", "pickle_vk")), a1, 0)]
+                sc.pre_precomputed = (combo // 16) % 2 == 1
+                sc.plans[0] = [(("precompute", "precompute_lazy")[(combo // 32 + combo) % 2], a0, 0)]
+                sc.plans[1] = [(KEY_OPS[combo % 8], a1, 0)]
                 if rng.random() < 0.5:
                     sc.plans[1].append((rng.choice(("verify", "to_string")), a1, 0))
-                if rng.random() < 0.5:
+                if (combo // 8) % 2 == 1:
                     sc.plans[0], sc.plans[1] = sc.plans[1], sc.plans[0]          # the key operation is the one that gets suspended, precompute runs in the gap
+                ctx.count("systematic_keys_combination.%s.%s.%s" % (KEY_OPS[combo % 8], "keyop_suspended" if (combo // 8) % 2 else "precompute_suspended", "warm" if sc.pre_precomputed else "cold"))
 
                 def run_once(delays):
                     dec = S.delay_decider(delays)
